@@ -338,6 +338,20 @@ func (e *Enc) loadAxioms() {
 			if !relevant {
 				continue
 			}
+			// an axiom whose trigger names a ghost function that occurs nowhere in the query can never be instantiated:
+			// leave it out (it is picked up in a later round if another axiom brings the function in)
+			if pat := patternText(ax.Text); pat != "" {
+				canFire := true
+				for name := range e.p.specs.GhostFuncs {
+					if mentionsIdent(pat, name) && !e.ghostUsed[name] {
+						canFire = false
+						break
+					}
+				}
+				if !canFire {
+					continue
+				}
+			}
 			done[i] = true
 			changed = true
 			env := &specEnv{fr: fr, e: e, vars: map[string]binding{}, cur: &state{regs: map[string]string{}, stale: map[string]int{}}, pkgPath: ax.PkgPath}
@@ -350,6 +364,27 @@ func (e *Enc) loadAxioms() {
 			e.axiomNames = append(e.axiomNames, ax.Label)
 		}
 	}
+}
+
+// patternText returns the argument text of the first pattern(...) of an axiom ("" if it has none).
+func patternText(text string) string {
+	i := strings.Index(text, "pattern(")
+	if i < 0 {
+		return ""
+	}
+	depth := 0
+	for j := i + len("pattern"); j < len(text); j++ {
+		switch text[j] {
+		case '(':
+			depth++
+		case ')':
+			depth--
+			if depth == 0 {
+				return text[i+len("pattern(") : j]
+			}
+		}
+	}
+	return ""
 }
 
 func mentionsIdent(text, name string) bool {
